@@ -21,6 +21,7 @@ import (
 	"fmt"
 	"io"
 	"net"
+	"runtime"
 	"runtime/debug"
 	"strings"
 	"testing"
@@ -239,30 +240,35 @@ func c46unix() []byte {
 
 func c46tcp(ip net.IP, port int) *net.TCPAddr { return &net.TCPAddr{IP: ip, Port: port} }
 
+// c46pairs enumerates (src, dst, ports). Addresses and ports are parsed independently, so the
+// bound is: quick = address pairs {first x all, all x first, equal} x 4 port pairs; thorough =
+// the full address cross x 4 port pairs plus the first address pair x all 16 port pairs.
+func c46pairs(ips []c46ip, thorough bool, f func(s, d c46ip, sp, dp int)) {
+	for i, s := range ips {
+		for j, d := range ips {
+			if !thorough && !(i == 0 || j == 0 || i == j) {
+				continue
+			}
+			for _, p := range c46portPairs(thorough && i == 0 && j == 0) {
+				f(s, d, p[0], p[1])
+			}
+		}
+	}
+}
+
 // c46conformant enumerates the headers a conformant sender can produce (within the bound).
 func c46conformant(thorough bool, emit func(c c46case)) {
-	ports := c46portPairs(thorough)
 	// ---- version 1
-	for _, s := range c46V4s {
-		for _, d := range c46V4s {
-			for _, p := range ports {
-				emit(c46case{kind: c46Advertised, class: "v1-TCP4", hdr: c46v1line("TCP4", s.text, d.text, p[0], p[1]),
-					src: c46tcp(s.ip, p[0]), dst: c46tcp(d.ip, p[1])})
-			}
+	c46pairs(c46V4s, thorough, func(s, d c46ip, sp, dp int) {
+		emit(c46case{kind: c46Advertised, class: "v1-TCP4", hdr: c46v1line("TCP4", s.text, d.text, sp, dp), src: c46tcp(s.ip, sp), dst: c46tcp(d.ip, dp)})
+	})
+	c46pairs(c46V6s, thorough, func(s, d c46ip, sp, dp int) {
+		cl := "v1-TCP6"
+		if s.mapped || d.mapped {
+			cl = "v1-TCP6-v4mapped"
 		}
-	}
-	for _, s := range c46V6s {
-		for _, d := range c46V6s {
-			for _, p := range ports {
-				cl := "v1-TCP6"
-				if s.mapped || d.mapped {
-					cl = "v1-TCP6-v4mapped"
-				}
-				emit(c46case{kind: c46Advertised, class: cl, hdr: c46v1line("TCP6", s.text, d.text, p[0], p[1]),
-					src: c46tcp(s.ip, p[0]), dst: c46tcp(d.ip, p[1])})
-			}
-		}
-	}
+		emit(c46case{kind: c46Advertised, class: cl, hdr: c46v1line("TCP6", s.text, d.text, sp, dp), src: c46tcp(s.ip, sp), dst: c46tcp(d.ip, dp)})
+	})
 	emit(c46case{kind: c46Real, class: "v1-UNKNOWN-short", hdr: []byte("PROXY UNKNOWN\r\n")})
 	emit(c46case{kind: c46Real, class: "v1-UNKNOWN-addrs", hdr: c46v1line("UNKNOWN", c46V6s[3].text, c46V6s[3].text, 65535, 65535)}) // the spec's worst-case line
 	emit(c46case{kind: c46Real, class: "v1-UNKNOWN-addrs", hdr: c46v1line("UNKNOWN", "1.2.3.4", "5.6.7.8", 1, 2)})
@@ -277,38 +283,24 @@ func c46conformant(thorough bool, emit func(c c46case)) {
 	}
 	for _, pad := range pads {
 		tlv := c46noop(pad)
-		for _, fam := range []byte{0x11, 0x12} {
-			for _, s := range v4s {
-				for _, d := range v4s {
-					for _, p := range ports {
-						addr := c46inet(s.ip, d.ip, p[0], p[1])
-						if fam == 0x11 {
-							emit(c46case{kind: c46Advertised, class: "v2-PROXY-TCP4", hdr: c46v2hdr(0x21, fam, addr, tlv), src: c46tcp(s.ip, p[0]), dst: c46tcp(d.ip, p[1])})
-						} else if s.text == d.text {
-							emit(c46case{kind: c46Optional, class: "v2-PROXY-non-TCP-family", hdr: c46v2hdr(0x21, fam, addr, tlv), src: c46tcp(s.ip, p[0]), dst: c46tcp(d.ip, p[1])})
-						}
-					}
-				}
+		c46pairs(v4s, thorough, func(s, d c46ip, sp, dp int) {
+			addr := c46inet(s.ip, d.ip, sp, dp)
+			emit(c46case{kind: c46Advertised, class: "v2-PROXY-TCP4", hdr: c46v2hdr(0x21, 0x11, addr, tlv), src: c46tcp(s.ip, sp), dst: c46tcp(d.ip, dp)})
+			if s.text == d.text {
+				emit(c46case{kind: c46Optional, class: "v2-PROXY-non-TCP-family", hdr: c46v2hdr(0x21, 0x12, addr, tlv), src: c46tcp(s.ip, sp), dst: c46tcp(d.ip, dp)})
 			}
-		}
-		for _, fam := range []byte{0x21, 0x22} {
-			for _, s := range v6s {
-				for _, d := range v6s {
-					for _, p := range ports {
-						addr := c46inet(s.ip, d.ip, p[0], p[1])
-						if fam == 0x21 {
-							cl := "v2-PROXY-TCP6"
-							if s.mapped || d.mapped {
-								cl = "v2-PROXY-TCP6-v4mapped"
-							}
-							emit(c46case{kind: c46Advertised, class: cl, hdr: c46v2hdr(0x21, fam, addr, tlv), src: c46tcp(s.ip, p[0]), dst: c46tcp(d.ip, p[1])})
-						} else if s.text == d.text && !s.mapped {
-							emit(c46case{kind: c46Optional, class: "v2-PROXY-non-TCP-family", hdr: c46v2hdr(0x21, fam, addr, tlv), src: c46tcp(s.ip, p[0]), dst: c46tcp(d.ip, p[1])})
-						}
-					}
-				}
+		})
+		c46pairs(v6s, thorough, func(s, d c46ip, sp, dp int) {
+			addr := c46inet(s.ip, d.ip, sp, dp)
+			cl := "v2-PROXY-TCP6"
+			if s.mapped || d.mapped {
+				cl = "v2-PROXY-TCP6-v4mapped"
 			}
-		}
+			emit(c46case{kind: c46Advertised, class: cl, hdr: c46v2hdr(0x21, 0x21, addr, tlv), src: c46tcp(s.ip, sp), dst: c46tcp(d.ip, dp)})
+			if s.text == d.text && !s.mapped {
+				emit(c46case{kind: c46Optional, class: "v2-PROXY-non-TCP-family", hdr: c46v2hdr(0x21, 0x22, addr, tlv), src: c46tcp(s.ip, sp), dst: c46tcp(d.ip, dp)})
+			}
+		})
 		emit(c46case{kind: c46Optional, class: "v2-PROXY-UNSPEC", hdr: c46v2hdr(0x21, 0x00, nil, tlv)})
 		emit(c46case{kind: c46Optional, class: "v2-PROXY-non-TCP-family", hdr: c46v2hdr(0x21, 0x31, c46unix(), tlv)})
 		emit(c46case{kind: c46Optional, class: "v2-PROXY-non-TCP-family", hdr: c46v2hdr(0x21, 0x32, c46unix(), tlv)})
@@ -684,6 +676,7 @@ func TestVerifC46(t *testing.T) {
 	samples := map[string]bool{}
 	panics := 0
 	debug.SetGCPercent(800) // the real NewConn allocates a 4 KiB buffer per case
+	runtime.GOMAXPROCS(2)   // the enumeration is single-threaded; shards provide the parallelism
 	appBufs := map[int][]byte{}
 	for _, n := range bufszs {
 		appBufs[n] = make([]byte, n)
@@ -707,8 +700,8 @@ func TestVerifC46(t *testing.T) {
 			pairs := thorough && (p.name == "empty" || p.name == "hello")
 			c46cuts(len(stream), len(c.hdr), big, pairs, func(cuts []int) {
 				for _, bufsz := range bufszs {
-					if big && bufsz != 4096 && len(cuts) > 0 {
-						continue
+					if bufsz != 4096 && ((big && len(cuts) > 0) || len(cuts) == 2) {
+						continue // the app's buffer size does not interact with the parser; keep the products small
 					}
 					for _, addrFirst := range []bool{true, false} {
 						mkid := func() string {
